@@ -89,6 +89,15 @@ def run(ctx):
                 extra.append(("readdir", t2.parents(q)[0]))
         body = body + extra
         rnd.shuffle(body)
+        # operations on the backup copy of an entry that was just backed up (its mirror path inside the location)
+        tops = [x for x in inits if x[0] in ("F", "L", "D") and x[1] != b"/" and not pg.within(q, x[1]) and not any(pg.within(a_, x[1]) and a_ != b"/" for a_ in t2.parents(q) + [q])]
+        if b"/..d" not in [x[1] for x in inits] and rnd.random() < 0.5:
+            inits = inits + [("F", b"/..d", 0o644, 0, 0, 901, "Bdots")]
+            tops.append(inits[-1])
+        for x in rnd.sample(tops, min(len(tops), 2)):
+            v = x[1]
+            body.append(rnd.choice([("chmod", v, "600"), ("chown", v, 1000, 1000), ("remove", v)]))
+            body.append(rnd.choice([("stat", q + v), ("lstat", q + v), ("remove", q + v), ("chmod", q + v, "777"), ("read", q + v), ("readdir", q)]))
         ops2 = [ops[0]] + body + [("dump",), ("rollback",)]
         cases.append(t2.Case("c04-%d" % i, cfg, inits, ops2, meta={"before_rollback": str(len(ops2) - 2)}))
     r = worldrun.run_stream("C04", "sealed", cases, model_ok, level=1, oracle=oracle,
